@@ -28,7 +28,7 @@ EV_PROP = {
     "WaitBudget": "C08+C09", "SendCall": "C09", "Send": "C09", "TrySend": "C09", "SendRet": "C09",
     "Take": "C06", "TakeEmpty": "C06", "Call": "C06", "Ret": "C06",
     "FlushReq": "C07", "Fired": "C07", "FlushRet": "C07", "EmptyReq": "C08", "EmptyFired": "C08",
-    "CallerPanicked": "C08", "Wait": "C08", "Exit": "C08+C06", "End": "C08+C06", "Closing": "C08", "Closed": "C08", "Reset": "C08",
+    "CallerPanicked": "C08", "RecvPanicked": "C08+C06", "Wait": "C08", "Exit": "C08+C06", "End": "C08+C06", "Closing": "C08", "Closed": "C08", "Reset": "C08",
 }
 ACTIONS = ["Send", "TrySend", "WhenEmpty", "SendWake", "WhenFlushed", "FlushRet", "DropSender",
            "RecvTake", "IdleWake", "AttemptEnd", "RetryWake"]
